@@ -128,7 +128,7 @@ pub fn metadata_sweep(rep: &mut Report, thorough: bool) {
         }
     }
     let menu = Arc::new(Menu { docs, infos: infos.iter().cloned().map(Some).collect() });
-    let sc = Scenario { name: "metadata-sweep".into(), nrep: 2, menu: menu.clone(), prologue: vec![], alphabet: vec![], key_opts: KeyOpts::default(), max_depth: 0, track: false };
+    let sc = Scenario { name: "metadata-sweep".into(), nrep: 2, menu: menu.clone(), prologue: vec![], alphabet: vec![], key_opts: KeyOpts::default(), max_depth: 0, track: false, order: None };
     let mut cx = Cx::default();
     let total = cases.len();
     for c in &cases {
